@@ -149,6 +149,9 @@ func runC01(r *hk.Run) {
 	runMarshalCtCells(r, rng.Fork())
 	runH3LossCells(r, rng.Fork())
 
+	// (r) multipart uploads: reader read sizes; a retry hook that changes the form
+	runMultipartCells(r, rng.Fork())
+
 	// (m) Alt-Svc: the same requests over TCP first and over the learned HTTP/3 endpoint later
 	runAltSvcCells(r, rng.Fork())
 
